@@ -441,6 +441,9 @@ func (e *env) one(b *beh, n int) {
 		}
 	}
 	e.r.Eval(s.Attrs == "unsorted" || s.MultiAttr || s.Nested || s.Crl || s.ExtraCert || s.Algs != "one")
+	if s.Nested && s.Attrs == "unsorted" {
+		e.r.Sample(b)
+	}
 }
 
 // Own: vh cms-own — every CMS value relic itself produces (per signer x key kind x timestamped or not): it must
